@@ -21,6 +21,24 @@ THEOREMS = [
     "BeyondVerif.C05.kepler_equation_equivariant",
     "BeyondVerif.C05.hyperbolic_kepler_equation_solution_unique",
     "BeyondVerif.C05.kepler_solves_two_body",
+    "BeyondVerif.C05.deltaT_eq",
+    "BeyondVerif.C05.deltaT_telescope",
+    "BeyondVerif.C05.subDate_inst",
+    "BeyondVerif.C05.subDate_inst_bound",
+    "BeyondVerif.C05.deltaT_eq_instant_diff",
+    "BeyondVerif.C05.kepler_M_advance_dates",
+    "BeyondVerif.C05.kepler_M_advance_dates_us",
+    "BeyondVerif.C05.kepler_M_advance_readings",
+    "BeyondVerif.C05.off_TT_UTC",
+    "BeyondVerif.C05.kepler_M_advance_UTC_to_TT",
+    "BeyondVerif.C05.propagate_label_free",
+    "BeyondVerif.C05.kepler_compose_dates",
+    "BeyondVerif.C05.kepler_inverse_dates",
+    "BeyondVerif.C05.timedelta_is_date",
+    "BeyondVerif.C05.kepler_M_advance_timedelta",
+    "BeyondVerif.C05.kepler_M_advance_timedelta_same_offset",
+    "BeyondVerif.C05.kepler_compose_timedelta",
+    "BeyondVerif.C05.propagateTo_history_independent",
     "BeyondVerif.C05.propagate_history_independent",
     "BeyondVerif.C05.propagate_overwrites_cache",
     "BeyondVerif.C05.kpM2eLoop_exit",
@@ -42,6 +60,9 @@ THEOREMS = [
     "BeyondVerif.C05.j2_critical_no_perigee_drift",
     "BeyondVerif.C05.j2_compose",
     "BeyondVerif.C05.j2_inverse",
+    "BeyondVerif.C05.j2_compose_dates",
+    "BeyondVerif.C05.j2_inverse_dates",
+    "BeyondVerif.C05.j2_step_mod_dates",
     "BeyondVerif.C05.j2_node_rate_eq_sso",
 ]
 LEVEL_TEXT = ("Lean theorems over R about the element update translated from kepler.py, j2.py and Infos.n on every run: a, e, i, node, perigee constant and "
@@ -49,7 +70,13 @@ LEVEL_TEXT = ("Lean theorems over R about the element update translated from kep
               "coordinates of the propagated state satisfy Newton's equation r'' = -mu r/|r|^3 (HasDerivAt, all t); "
               "J2 keeps a, e, i, is linear in dt with exactly the first-order secular rates (no node drift at cos i = 0, no perigee drift at 5 cos^2 i = 1, "
               "node rate = Earth's mean motion for the inclination returned by leo.sso), composes modulo 2 pi. Cartesian-level composition / inverse / "
-              "periodicity are proved from the form round trip as explicit hypotheses (C01). The propagator object re-reads the orbit on every call (history independence); "
+              "periodicity are proved from the form round trip as explicit hypotheses (C01). "
+              "Dates: delta_t and the target date are translated from the head of Kepler.propagate / J2.propagate into the C03 date model (instant on TAI + own scale); for an epoch and "
+              "a target in ANY pair of the six scales delta_t is the difference of the two instants (exactly for whole-microsecond dates, within 1 us otherwise), M advances by n times it, "
+              "J2 drifts at the secular rates times it, the result carries the requested date, relabelling either date in another scale changes nothing, composition / inverse through "
+              "dates in any three scales are exact; a timedelta argument is the date epoch + timedelta and advances M by n times the timedelta in TAI, TT, GPS (also across leap seconds, "
+              "every Earth-orientation environment) and in any scale when the offset to TAI does not change (UTC when no leap second intervenes); UTC -> TT spelled out "
+              "(readings minus 32.184 s minus TAI-UTC). The propagator object re-reads the orbit (elements and epoch) on every call (history independence); "
               "the Newton loop of Form.M2E (translated start values / update / tolerance, loop shape checked) is left on convergence only, so a returned anomaly solves Kepler's equation "
               "for the advanced mean anomaly within 2e-8 (1+e); for the anomaly reduced to [-pi, pi) (as the code does since b41fd8b) with |M'| <= pi - e the loop provably exits (monotone Newton descent). Differential correspondence of the whole chain (update, M2E, "
               "eccentric -> true -> cartesian, all in Lean) against Orbit.propagate from every form, on single calls and on call histories with in-place modifications.")
@@ -60,15 +87,26 @@ TECHNIQUE = "Lean 4 proof (ring / field identities, floor arithmetic) over formu
 TRUSTED = [
     "harness/py2lean.py: translates Infos.n, Body.mu, the body of Kepler.propagate and J2.propagate and the sso inclination formula into Generated/Propag{F,R}.lean on every run; "
     "constants G, Earth mass/radius/J2 are read from the live beyond.constants module",
+    "harness/props/C05.py DateTr / date_head: typed translation of the date arithmetic at the head of both propagate() methods (Date - Date, Date + timedelta, total_seconds) into the "
+    "C03 date model; anything else (own-scale clock fields d, s, datetime, mjd) is refused and the run reported as broken; shape checks: `date` rebound only in the timedelta branch, "
+    "`new.date = date` once, Orbit.propagate hands its argument on unchanged",
+    "the date model (Model/Date.lean, DateCfg: scale graph, _scale_* methods, IERS tables, TDB formula regenerated by C03.extract, which C05.extract calls) is C03's; here it is tied to "
+    "the propagators by the dated correspondence cases (model span / stamped scale vs `result.date - epoch`, cartesian state) in three Earth-orientation environments",
+    "oracle: the instants of the dates handed in come from the harness's own offsets (32.184 s, 19 s, tai-utc.dat / finals read by C03.tables, documented TDB formula), not from the library",
     "lean/templates/Propag.tpl (hand-written glue: which element is updated, the modulo-2pi wrap of J2, the fuel-bounded Newton loop whose shape the extractor checks against "
     "the source, the propagator object and its unconditional setter), tied by the correspondence run (single calls, slow-M2E inputs, histories)",
     "harness mirror of the M2E loop (m2e_iters) is used only to SELECT inputs on which the loop runs long, never as an expected value; a 1 s SIGALRM watchdog decides 'does not return'",
     "numpy / libm double arithmetic vs R: tolerance 1e-9 (1 + n|dt|) relative",
 ]
-ASSUMPTIONS = ["cartesian-level theorems take the keplerian_mean <-> cartesian round trip (up to 2 pi k on M for e < 1) and the 2 pi-periodicity of mean -> cartesian as hypotheses hRT / hPer (C01)",
+ASSUMPTIONS = ["timedelta arguments: `advances M by n times the timedelta` is stated (and tested) for epochs in TAI, TT, GPS and for UTC when no leap second lies in the span; "
+               "for UT1 / TDB epochs and UTC spans across a leap second a timedelta is propagated as the date `epoch + timedelta` (consistency with that date is tested, not n*timedelta)",
+               "dates within 2 minutes of a leap second and UT1 readings within 5 s of midnight (C03's open finding ut1-step-at-utc-midnight) are not generated; spans may cross leap seconds",
+               "cartesian-level theorems take the keplerian_mean <-> cartesian round trip (up to 2 pi k on M for e < 1) and the 2 pi-periodicity of mean -> cartesian as hypotheses hRT / hPer (C01)",
                "theorems are over R; the implementation computes in IEEE doubles",
                "frames are only labels here: the propagators never change the frame"]
-NOT_COVERED = ["two-body solution: proved for bound orbits in the orbital plane (kepler_solves_two_body: perifocal coordinates of the propagated state satisfy r'' = -mu r/|r|^3 with the same mu); "
+NOT_COVERED = ["the date arithmetic itself (Date construction, offsets, `-`, `+`) is C03's subject: here its model is used, and tied to the propagators by the dated cases only; "
+               "`datetime` arguments are refused by the library (TypeError; tallied by the oracle), numpy datetime64 / float arguments likewise",
+               "two-body solution: proved for bound orbits in the orbital plane (kepler_solves_two_body: perifocal coordinates of the propagated state satisfy r'' = -mu r/|r|^3 with the same mu); "
                "the hyperbolic counterpart, the constant rotation of the orbital plane into the frame, and that the library's mean -> cartesian conversion computes these coordinates (C01) are not formalised; "
                "agreement with the independent universal-variable solution (elliptic and hyperbolic, both time directions) is oracle only",
                "J2 on hyperbolic orbits: the code returns NaN silently (sqrt(1 - e^2)); secular J2 theory is defined for bound orbits only, the model reproduces the NaN, the theorems assume e < 1 where sqrt matters"]
@@ -79,9 +117,15 @@ OPEN = ["termination of Form.M2E (elliptic branch, code after fix b41fd8b) is pr
 RULE = ("correspondence: random orbits (e log/uniform in [1e-4,0.95] and [1.01,10], perigee radius 6.6e6..5e7 m, every form the conic admits, dt in +-30 d quantised to ms) through "
         "Orbit.propagate (Kepler, J2) vs real mean->cartesian applied to the Lean model's elements on the real cartesian->mean elements; non-trivial = dt != 0; distinct = distinct request line. "
         "plus the Kepler inputs with the most Newton passes among 2e4 (2e5) domain candidates, plus call histories (propagate / modify in place: element, velocity scaling, form, date / propagate again, "
-        "timedelta and absolute dates) threaded through the model's propagator object; the model's cartesian state comes from the Lean chain with fuel 1e4. "
+        "epoch shifted or RELABELLED in another scale; timedelta, date in the epoch's scale, date in a drawn scale) threaded through the model's propagator object (driver command histd: "
+        "the model is given scale + clock reading of epoch and target and computes the span itself), one third of them in a drawn Earth-orientation environment with the epoch in a drawn scale; "
+        "single dated propagations: propagator x {no EOP, constant mocked record, real tests/data/pole database} x scale of the epoch x scale of the target (all 2 x 3 x 36, 3 (40) sweeps), "
+        "every seventh a timedelta, a third of the real-database epochs placed so that the span crosses a leap second; the model's cartesian state comes from the Lean chain with fuel 1e4. "
         "oracle: element constancy, M advance, composition, inverse, periodicity, universal-variable two-body solution (1e-5), J2 secular rates from the textbook formula, polar / critical / sso, "
-        "Kepler-equation residual of Form.M2E over the domain, history = fresh orbit, every call under a watchdog (no return = failure), pinned regression inputs")
+        "Kepler-equation residual of Form.M2E over the domain, history = fresh orbit, every call under a watchdog (no return = failure), pinned regression inputs; "
+        "every Kepler / J2 clause again with the dates handed in as Date objects (gen_dated: environment x epoch scale x first target scale through all 3 x 36 combinations, 2 (12) sweeps per "
+        "propagator; the composition legs, the way back and the period in further drawn scales or as timedelta; expected values from the elapsed time between the instants computed by the harness; "
+        "the result must carry the requested date and scale); iter(dates=mixed scales), iter(start in another scale, stop, step), datetime arguments (api_case)")
 
 REPO = core.REPO
 KEPLER_PY = os.path.join(REPO, "beyond", "propagators", "kepler.py")
@@ -404,6 +448,16 @@ def set_env(mode):
         from beyond.dates import eop
         EopDb._dbs[EopDb.DEFAULT_DBNAME] = eop.SimpleEopDatabase      # drop a cached failed instantiation
     _env_state["mode"] = mode
+
+
+def warm_envs():
+    """load the real database and the harness's own tables once, outside every per-call watchdog; leave the ambient environment"""
+    from beyond.dates.eop import EopDb
+    set_env("real")
+    EopDb.db()
+    D3().tables()
+    epoch0_us()
+    set_env("zero")
 
 
 class eop_env:
@@ -796,7 +850,7 @@ def correspondence(ctx):
     from beyond import constants as K
     out = Outcome()
     rng = ctx.rng
-    set_env("zero")
+    warm_envs()
     reqs, meta = [], []
     # constants as regenerated
     reqs.append("c05const")
@@ -1128,7 +1182,7 @@ def oracle(ctx, widened):
     out = Outcome()
     rng = ctx.rng
     big = widened or ctx.thorough
-    set_env("zero")
+    warm_envs()
     # reference values (EGM96 / IAU): the library's constants define "the first-order secular J2 rates"; a drift of the constants themselves is a failure
     for name, val, ref in (("mu", K.Earth.mu, 3.986004418e14), ("r", K.Earth.r, 6378136.3), ("J2", K.Earth.J2, 1.08262668355e-3)):
         out.count(key=("const", name), kind="constants")
@@ -1594,7 +1648,7 @@ def replay(f):
         return out
     if not isinstance(inp, dict) or "mean_elements" not in inp:
         return oracle(core.Ctx(ID, "quick", 0), False)
-    set_env("zero")
+    warm_envs()
     with _quiet():
         if "steps" in inp:
             guarded(out, history_case, dict(inp, steps=[tuple(st) for st in inp["steps"]]))
